@@ -182,7 +182,9 @@ int main(int argc, char **argv) {
     uint64_t total_units = blob ? blob->size() : fams.empty() ? vg::num_graphs(n) : fams.size();
     uint64_t seed = (uint64_t) A.geti("seed", 0);
     int min_dim = (int) A.geti("min-dim", 0);
-    auto unit_graph = [&](uint64_t u) { uint64_t uu = (u + seed) % total_units; return blob ? blob->build(uu) : fams.empty() ? vg::graph_from_mask(n, uu) : vg::family(fams[uu]); };
+    int orient_mode = (int) A.geti("orient", 0);
+    auto unit_graph0 = [&](uint64_t u) { uint64_t uu = (u + seed) % total_units; return blob ? blob->build(uu) : fams.empty() ? vg::graph_from_mask(n, uu) : vg::family(fams[uu]); };
+    auto unit_graph = [&](uint64_t u) { vg::EdgeList g = unit_graph0(u); vg::orient(g, orient_mode); return g; };
     auto describe = [&](uint64_t u, uint64_t sub, uint64_t) {
         vg::EdgeList el = unit_graph(u); std::vector<double> w; vg::weighting(alpha, el.m(), sub, w);
         return std::make_pair(std::string("tbb entry point"), vg::case_string(el, w));
@@ -195,7 +197,7 @@ int main(int argc, char **argv) {
         uint64_t nw = vg::num_weightings(alpha, el.m());
         std::vector<double> w; vg::weighting(alpha, el.m(), 0, w);
         B b(el, w);
-        for (uint64_t s = start_sub; s < nw; ++s) {
+        for (uint64_t s = start_sub; s < nw; ++s) { if (R.expired()) break;
             vg::weighting(alpha, el.m(), s, w);
             R.sh->crumbs[R.worker_id].sub.store(s);
             R.count(C_INPUTS); if (dim >= 1) R.count(C_NONTRIV);
